@@ -330,3 +330,36 @@ Example exm_dup_undef : set_many_spec exm_struct [ (PField 3, VI32 2); (PField 3
   set_many_bytes T_STRUCT (encode exm_struct) (map enc_req [ (PField 3, VI32 2); (PField 3, VI32 4) ]) = MUndef.
 Proof. vm_compute. split; reflexivity. Qed.
 Example exm_wrong_type : set_many_spec exm_struct [ (PField 3, VI64 2) ] = None. Proof. vm_compute. reflexivity. Qed.
+
+(* ======================================================================================================
+   Node.ReplaceByPath (also reached through a Value's embedded node) — model/ThriftEditBytes.v replace_by_path, spec ast_replace:
+   an EXISTING element is set to what the callback makes of it (a node built without looking at the argument, the argument
+   itself, an error node); an absent element or a path that does not fit is an error with exist = false, whatever the
+   callback does, and the value is unchanged.
+   ====================================================================================================== *)
+Theorem C04_replace_refines : forall p cb v, wf v = true -> (depth v <= max_skip_depth)%nat ->
+  replace_by_path (type_of v) (encode v) p (cb_bytes cb) = rres_of (ast_replace p cb v).
+Proof. exact replace_refines. Qed.
+Print Assumptions C04_replace_refines.
+
+Theorem C04_replace_is_set_when_present : forall p x v sub o, wf v = true -> (depth v <= max_skip_depth)%nat ->
+  lookup v 0 p = LFound sub o ->
+  replace_by_path (type_of v) (encode v) p (CbConst (type_of x) (encode x)) =
+    match ast_set true p x v with Some (v', _) => ROk (encode v') | None => RErr true end.
+Proof. exact replace_is_set_when_present. Qed.
+Print Assumptions C04_replace_is_set_when_present.
+
+Theorem C04_replace_absent_unchanged : forall p cb v, wf v = true -> (depth v <= max_skip_depth)%nat ->
+  (forall sub o, lookup v 0 p <> LFound sub o) ->
+  replace_by_path (type_of v) (encode v) p (cb_bytes cb) = RErr false /\ ast_replace p cb v = (None, false).
+Proof. exact replace_absent_unchanged. Qed.
+Print Assumptions C04_replace_absent_unchanged.
+
+Example ex4_replace_present : replace_by_path T_STRUCT (encode ex4_v) [PField 2; PIndex 1] (CbConst T_I32 (encode (VI32 5))) =
+  ROk (encode (VStruct [ (2, VList T_I32 [VI32 1; VI32 5; VI32 3]); (1, VMap T_STRING T_I64 []); (3, VStruct [ (1, VString [97]) ]) ])).
+Proof. vm_compute. reflexivity. Qed.
+Example ex4_replace_absent : replace_by_path T_STRUCT (encode ex4_v) [PField 2; PIndex 3] (CbConst T_I32 (encode (VI32 5))) = RErr false /\
+  replace_by_path T_STRUCT (encode ex4_v) [PField 9] (CbConst T_I32 (encode (VI32 5))) = RErr false /\
+  replace_by_path T_STRUCT (encode ex4_v) [PField 2; PIndex 1] CbErr = RErr true /\
+  replace_by_path T_STRUCT (encode ex4_v) [PField 2; PIndex 1] CbId = ROk (encode ex4_v).
+Proof. vm_compute. repeat split. Qed.
